@@ -29,12 +29,20 @@ fn be4(x: u32) -> [u8; 4] {
 }
 
 fn ipv4_fields(h: &Ipv4Header) -> Value {
-    json!({"tos": h.type_of_service.as_u8(), "tl": h.total_length, "id": h.identification, "df": !h.flags.may_fragment(),
+    // the type of service is read through the typed accessors and put together as RFC 791 lays it out
+    // (precedence 3 bits, D, T, R, two reserved bits): a constructor / accessor pair that agrees with itself but
+    // not with the RFC is visible
+    let t = &h.type_of_service;
+    let tos = ((t.precedence() as u8) << 5) | ((t.delay() as u8) << 4) | ((t.throughput() as u8) << 3) | ((t.reliability() as u8) << 2) | (t.as_u8() & 3);
+    json!({"tos": tos, "tl": h.total_length, "id": h.identification, "df": !h.flags.may_fragment(),
            "mf": !h.flags.is_last_fragment(), "fo": h.fragment_offset, "ttl": h.time_to_live, "proto": h.protocol, "ck": h.checksum,
            "src": h.source.to_bytes(), "dst": h.destination.to_bytes()})
 }
 fn tcp_fields(h: &TcpHeader) -> Value {
-    let ctl: u8 = h.ctl.into();
+    // the control bits are read through the typed accessors and put together as RFC 9293 lays them out
+    // (URG ACK PSH RST SYN FIN = 32 16 8 4 2 1), for the same reason as the type of service above
+    let c = h.ctl;
+    let ctl: u8 = ((c.urg() as u8) << 5) | ((c.ack() as u8) << 4) | ((c.psh() as u8) << 3) | ((c.rst() as u8) << 2) | ((c.syn() as u8) << 1) | (c.fin() as u8);
     json!({"sport": h.src_port, "dport": h.dst_port, "seq": be4(h.seq), "ack": be4(h.ack), "ctl": ctl, "wnd": h.wnd, "ck": h.checksum, "urg": h.urg})
 }
 fn udp_fields(h: &UdpHeader) -> Value {
@@ -65,7 +73,9 @@ pub fn drive(a: &Args) {
                 let f = (v8(&mut rng) & 0xfc, rng.gen_range(20..=65535u16).max(if rng.gen() { 20 } else { 65535 }), v16(&mut rng), rng.gen::<bool>(), rng.gen::<bool>(),
                          [0u16, 1, 255, 256, 8191, rng.gen_range(0..8192)][rng.gen_range(0..6)], v8(&mut rng), v8(&mut rng), a4(&mut rng), a4(&mut rng));
                 let tl = if rng.gen_range(0..3) == 0 { [20u16, 21, 65535][rng.gen_range(0..3)] } else { rng.gen_range(20..=65535) };
-                let h = Ipv4Header { ihl: 5, type_of_service: f.0.into(), total_length: tl, identification: f.2, fragment_offset: f.5,
+                let tos_typed = elvis_core::protocols::ipv4::ipv4_parsing::TypeOfService::new(
+                    (f.0 >> 5).try_into().unwrap(), ((f.0 >> 4) & 1).try_into().unwrap(), ((f.0 >> 3) & 1).try_into().unwrap(), ((f.0 >> 2) & 1).try_into().unwrap());
+                let h = Ipv4Header { ihl: 5, type_of_service: tos_typed, total_length: tl, identification: f.2, fragment_offset: f.5,
                     flags: ControlFlags::new(!f.3, !f.4), time_to_live: f.6, protocol: f.7, checksum: 0,
                     source: Ipv4Address::new(f.8), destination: Ipv4Address::new(f.9) };
                 let enc = h.serialize().ok();
